@@ -269,8 +269,15 @@ func gen(rng *h.Rng, tier string, emit func(string)) {
 				}
 			}
 		}
+		curIds := parseIds(c)
 		for _, id := range ids {
 			if len(ids) > 12 && !rng.Chance(12, len(ids)) {
+				continue
+			}
+			if self >= 0 && self < len(curIds) && curIds[self] == id {
+				// the node's own key: the property relates validators to *other* validators and says
+				// nothing about a node asking whether it is its own neighbour; not generated
+				st.Inc("isn-own-key-skipped")
 				continue
 			}
 			emit(fmt.Sprintf("isn %s %s %s %d %d", p, c, n, self, id))
@@ -295,7 +302,10 @@ func gen(rng *h.Rng, tier string, emit func(string)) {
 			emit(fmt.Sprintf("all %s %s %s %d", p, c, n, self))
 			st.Inc("all-full")
 			pi, ci, ni := parseIds(p), parseIds(c), parseIds(n)
-			for _, id := range []uint64{pi[self], ni[self], ci[self], ci[rng.Intn(v)], pi[rng.Intn(v)], ci[(self+31)%v], ci[(self+1)%v], 7} {
+			for _, id := range []uint64{pi[self], ni[self], ci[rng.Intn(v)], pi[rng.Intn(v)], ci[(self+31)%v], ci[(self+1)%v], 7} {
+				if id == ci[self] {
+					continue
+				}
 				emit(fmt.Sprintf("isn %s %s %s %d %d", p, c, n, self, id))
 				st.Inc("isn-full")
 			}
